@@ -396,6 +396,12 @@ func addFactEvents(ev *Event, facts FactSet, out *[]*Event) bool {
 		case 1:
 			continue
 		}
+		switch decideByCases(nf, facts) {
+		case 0:
+			return false
+		case 1:
+			continue
+		}
 		if facts.Has(nf) {
 			continue
 		}
@@ -450,8 +456,98 @@ func (p *Prog) spliceable(f *Func, ev *Event) bool {
 		if fn := ev.CI.fun; fn != nil && fn.Is("func") && len(fn.A) == 2 && fn.A[1].Op == "env" {
 			return true
 		}
+		// a block of a sibling literal moved into a local function value that is called exactly once: both
+		// literals capture the same variables of the enclosing function
+		if f.Parent == g.Parent && p.localBlock(g) {
+			return true
+		}
 	}
 	return false
+}
+
+// localBlock: the literal g is the only value of a local variable of its enclosing function, and that variable
+// is used exactly once, as the callee of a direct call — an extracted block of the literal that calls it.
+func (p *Prog) localBlock(g *Func) bool {
+	if g == nil || g.Lit == nil || g.Parent == nil || g.Parent.Body == nil {
+		return false
+	}
+	if v, ok := p.localBlockMemo[g]; ok {
+		return v
+	}
+	if p.localBlockMemo == nil {
+		p.localBlockMemo = map[*Func]bool{}
+	}
+	info := g.Pkg.TypesInfo
+	var bound *types.Var
+	ast.Inspect(g.Parent.Body, func(n ast.Node) bool {
+		switch s := n.(type) {
+		case *ast.AssignStmt:
+			if len(s.Lhs) == len(s.Rhs) {
+				for i, r := range s.Rhs {
+					if ast.Unparen(r) == ast.Expr(g.Lit) {
+						if id, ok := s.Lhs[i].(*ast.Ident); ok && s.Tok.String() == ":=" {
+							bound, _ = info.Defs[id].(*types.Var)
+						}
+					}
+				}
+			}
+		case *ast.ValueSpec:
+			if len(s.Names) == len(s.Values) {
+				for i, r := range s.Values {
+					if ast.Unparen(r) == ast.Expr(g.Lit) {
+						bound, _ = info.Defs[s.Names[i]].(*types.Var)
+					}
+				}
+			}
+		}
+		return true
+	})
+	res := false
+	if bound != nil {
+		callFun := map[*ast.Ident]bool{}
+		uses, calls, writes := 0, 0, 0
+		ast.Inspect(g.Parent.Body, func(n ast.Node) bool {
+			switch s := n.(type) {
+			case *ast.CallExpr:
+				if id, ok := ast.Unparen(s.Fun).(*ast.Ident); ok {
+					callFun[id] = true
+				}
+			case *ast.AssignStmt:
+				for _, l := range s.Lhs {
+					if id, ok := l.(*ast.Ident); ok && info.Uses[id] == types.Object(bound) {
+						writes++
+					}
+				}
+			case *ast.Ident:
+				if info.Uses[s] == types.Object(bound) {
+					uses++
+					if callFun[s] {
+						calls++
+					}
+				}
+			}
+			return true
+		})
+		// the call is in the body of a sibling literal (directly, not in a literal nested deeper)
+		sibling := false
+		for _, h := range p.Funcs {
+			if h.Lit == nil || h.Parent != g.Parent || h == g {
+				continue
+			}
+			ast.Inspect(h.Body, func(n ast.Node) bool {
+				if _, ok := n.(*ast.FuncLit); ok {
+					return false
+				}
+				if id, ok := n.(*ast.Ident); ok && callFun[id] && info.Uses[id] == types.Object(bound) {
+					sibling = true
+				}
+				return true
+			})
+		}
+		res = uses == 1 && calls == 1 && writes == 0 && sibling
+	}
+	p.localBlockMemo[g] = res
+	return res
 }
 
 // splice expands the calls of inline targets in the raw paths of f.
@@ -503,7 +599,7 @@ func (p *Prog) spliceFrom(f *Func, pa *Path, from int) []*Path {
 	var sub func(*Term) *Term
 	if sp := p.specialise(g, call, pa.FactsBefore(idx)); sp != nil {
 		gpaths = sp
-		um := p.captureMap(g, call)
+		um := p.captureMap(f, g, call)
 		sub = func(t *Term) *Term {
 			if t == nil || len(um) == 0 {
 				return t
@@ -524,7 +620,7 @@ func (p *Prog) spliceFrom(f *Func, pa *Path, from int) []*Path {
 		if call.CI.recv != nil {
 			m["Precv"] = call.CI.recv
 		}
-		for k, v := range p.captureMap(g, call) {
+		for k, v := range p.captureMap(f, g, call) {
 			m[k] = v
 		}
 		sub = func(t *Term) *Term {
@@ -641,7 +737,7 @@ func (p *Prog) spliceFrom(f *Func, pa *Path, from int) []*Path {
 
 // captureMap: for a function literal, the enclosing function's parameters it captures (U_i) in the vocabulary
 // of the expansion in progress: the value the enclosing function's parameter is bound to, else the parameter itself.
-func (p *Prog) captureMap(g *Func, call *Event) map[string]*Term {
+func (p *Prog) captureMap(host, g *Func, call *Event) map[string]*Term {
 	if g.Lit == nil || g.Parent == nil {
 		return nil
 	}
@@ -654,6 +750,10 @@ func (p *Prog) captureMap(g *Func, call *Event) map[string]*Term {
 				m[fmt.Sprintf("U%d", i)] = env.A[i]
 			}
 		}
+		return m
+	}
+	// a block of a sibling literal: the same captured variables under the same names
+	if host != nil && host.Parent == g.Parent && host != g.Parent {
 		return m
 	}
 	bind := p.spliceBind[g.Parent]
